@@ -427,6 +427,21 @@ class Check:
         self.violations.append(case)
         return True
 
+    @staticmethod
+    def _spread(items, cap):
+        """keep at most `cap` items, round-robin over (stream, fn, why) so that every kind of failure is represented"""
+        groups = {}
+        for it in items:
+            groups.setdefault((it.get('stream'), it.get('fn'), it.get('why')), []).append(it)
+        out, i = [], 0
+        while len(out) < cap and any(groups.values()):
+            for k in list(groups):
+                if groups[k]:
+                    out.append(groups[k].pop(0))
+                    if len(out) >= cap:
+                        break
+        return out
+
     def mismatch(self, stream, case):
         self.mismatches.append({'stream': stream, 'case': case})
 
@@ -468,7 +483,7 @@ class Check:
         if self.violations:
             path = os.path.join(REPLAY_DIR, '%s-%s-seed%s.json' % (self.prop, self.tier, self.seed))
             json.dump({'property': self.prop, 'seed': self.seed, 'tier': self.tier,
-                       'failing_inputs': self.violations[:50], 'total': len(self.violations),
+                       'failing_inputs': self._spread(self.violations, 60), 'total': len(self.violations),
                        'failed_obligations': (b.failed if b else []),
                        'correspondence_mismatches': self.mismatches[:20]},
                       open(path, 'w'), indent=1, default=str, ensure_ascii=False)
